@@ -109,6 +109,19 @@ ThTraversal ==
         /\ \A y \in UpsetOf(L, x) \ {x} : \E z \in UpsetOf(L, x) : y \in L.upS[z]
         /\ \A y \in DownsetOf(L, x) \ {x} : \E z \in DownsetOf(L, x) : y \in L.loS[z]
 
+(* upset_generalization: why the early return of the implementation loses nothing - a member whose extent is the
+   whole target T is the last of the listed members; every listed member is reached from a seed through upper
+   covers that are themselves listed (extents only grow on the way up); a single seed generalises to itself *)
+ThGeneralization ==
+    \A x, y \in 1..L.N :
+        LET E == {L.ext[x], L.ext[y]}
+            tgt == UNION E
+            r == R_UpsetGeneralization(L, E)
+        IN  /\ Len(r) >= 1
+            /\ (tgt \in GenExts(L, E)) => r[Len(r)] = SortedSeq(tgt)
+            /\ \A g \in GenExts(L, E) : g \in E \/ \E z \in GenExts(L, E) : L.pos[g] \in L.upS[L.pos[z]]
+            /\ x = y => r = << SortedSeq(L.ext[x]) >>
+
 (* C10: reduced labelling *)
 ThLabels ==
     /\ \A i \in 1..T.n : Cardinality({x \in 1..L.N : i \in ToSet(L.olab[x])}) = 1
